@@ -362,6 +362,21 @@ func TestVerifAuthHTTP(t *testing.T) {
 			for k, c := range clients {
 				nodes[k] = vhNewNode(c)
 			}
+			// A node that has been up for a while has seen every user log in: warm the credential
+			// cache through the handler, so that the rejected-credential cases below also go "through
+			// the cache" (and so that a single replayed case has the same history).
+			for ui, u := range users {
+				if in.Only != nil && ui != in.Only.User {
+					continue
+				}
+				r := httptest.NewRequest("GET", "/query?q=SHOW+DATABASES", nil)
+				r.SetBasicAuth(u.Name(), u.Password())
+				w := httptest.NewRecorder()
+				nodes["normal"].h.ServeHTTP(w, r)
+				if w.Code != 200 {
+					failed.Store(fmt.Sprintf("warm-up login of %s: status %d %.200s", u.Name(), w.Code, w.Body.String()))
+				}
+			}
 			for gi := range jobs {
 				if failed.Load() != nil {
 					continue
